@@ -621,10 +621,16 @@ func sameSliceValue(f *ssa.Function, a, b ssa.Value) bool {
 	}
 	last := pa.Elems[len(pa.Elems)-1]
 	assigned := false
+	ia, okA := a.(ssa.Instruction)
+	ib, okB := b.(ssa.Instruction)
 	eachInstr(f, func(_ *ssa.BasicBlock, _ int, ins ssa.Instruction) {
 		if st, ok := ins.(*ssa.Store); ok {
 			if fa, ok := st.Addr.(*ssa.FieldAddr); ok && fieldName(fa) == last {
 				if p, ok := pathOfAddr(fa); ok && p.Root == pa.Root {
+					// an assignment matters only if it can happen between the two loads
+					if okA && okB && !(canReach(ia, st) && canReach(st, ib)) && !(canReach(ib, st) && canReach(st, ia)) {
+						return
+					}
 					assigned = true
 				}
 			}
